@@ -62,6 +62,10 @@ type Closure struct {
 	Env []Value
 	// Bound method value / builtin wrappers
 	Builtin *ssa.Builtin
+	// method of the reflect.Type model
+	ReflMeth string
+	ReflRecv reflType
+	ReflRes  *types.Tuple
 }
 
 type MapObj struct {
